@@ -9,6 +9,7 @@ pub mod c04;
 pub mod c05;
 pub mod c06;
 pub mod c07;
+pub mod c08;
 pub mod c09;
 pub mod c10;
 pub mod c12;
@@ -34,6 +35,7 @@ pub fn scenario(name: &str) -> Option<Scenario> {
         "c06_hotspot_qps" => c06::c06_hotspot_qps,
         "c07_flow_throttling" => c07::c07_flow_throttling,
         "c07_hotspot_throttling" => c07::c07_hotspot_throttling,
+        "c08_warmup" => c08::c08_warmup,
         "c09_system" => c09::c09_system,
         "c10_manager" => c10::c10_manager,
         "c12_flow" => c12::c12_flow,
